@@ -15,15 +15,27 @@ def parseOp (s : String) : Option Op :=
       | _ => none
   | _ => none
 
+/-- `E1@0:0`: the operation with similar's old_index / new_index -/
+def parseIOp (s : String) : Option IOp :=
+  match s.splitOn "@" with
+  | [o, idx] =>
+      match idx.splitOn ":" with
+      | [a, b] => do some { op := (← parseOp o), oi := (← a.toNat?), ni := (← b.toNat?) }
+      | _ => none
+  | _ => none
+
 def ids (s : String) : List Nat := if s == "-" then [] else (s.splitOn ",").filterMap (·.toNat?)
 
 def showIds (l : List Nat) : String := if l.isEmpty then "-" else ".".intercalate (l.map toString)
 
 def handle (v ops old new : String) : String :=
-  let os := if ops == "-" then [] else (ops.splitOn ",").map parseOp
-  if os.any (·.isNone) then "bad-op" else
   let variant := if v == "pinned" then pinned else repaired
-  let ms := mismatches variant 0 0 (os.filterMap id) (ids old) (ids new)
+  let indexed := ops.contains '@'
+  let osI := if ops == "-" || !indexed then [] else (ops.splitOn ",").map parseIOp
+  let os := if ops == "-" || indexed then [] else (ops.splitOn ",").map parseOp
+  if os.any (·.isNone) || osI.any (·.isNone) then "bad-op" else
+  let ms := if indexed then mismatchesI variant (osI.filterMap id) (ids old) (ids new)
+            else mismatches variant 0 0 (os.filterMap id) (ids old) (ids new)
   if ms.isEmpty then "-" else
   ";".intercalate (ms.map fun m =>
     s!"{m.originalStart}-{m.originalEnd}:{m.expectedStart}-{m.expectedEnd}:{showIds m.original}:{showIds m.expected}")
